@@ -16,7 +16,7 @@ CHECKS = {
                 text='No path of parse_module panics (fuel, assert!, bump at EOF, index, shift, rowan builder misuse) for every sequence of up to 4 / 5 non-trivia token kinds, 2 / 3 symbolic tokens in each of 37 grammar contexts, every valid UTF-8 string up to 6 / 8 bytes through one lexer step, up to 2 / 3 bytes end to end, in the dev and the release-like MIR profile; nesting growth (look-aheads without bump, call depth) is measured on solver-found witnesses, pumped, extrapolated past the fuel limit and to 10^5 levels and replayed against the native parser.',
                 tech='symbolic execution of rustc MIR + z3 (bounded, exhaustive) + native replay of pumped nesting families'),
     'C20': dict(cat='model_checking', ref='DESIGN.md §3 C20',
-                text='Kernel claim: (i) on every explored path of the parser (token sequences up to 3 / 4, contexts, raw sequences incl. trivia, bytes up to 2 / 3) every syntax-error range is the range of an existing token or the empty range at the end of the text, and every token produced by one lexer step on strings up to 5 / 7 bytes ends on a char boundary; (ii) convert::to_range over the real line map selects the same text in a reference LSP client (shared with C14). Ranges produced by ide queries are outside the claim.',
+                text='Kernel claim: (i) on every explored path of the parser (token sequences up to 3 / 4, contexts, raw sequences incl. trivia, bytes up to 2 / 3) every syntax-error range is the range of an existing token or the empty range at the end of the text, and every token produced by one lexer step on strings up to 5 / 7 bytes ends on a char boundary; (ii) convert::to_range over the real line map selects the same text in a reference LSP client (shared with C14); (iii) ide::diagnostics::diagnostics (real MIR, under-constrained database, symbolic syntax-error ranges) hands every parser error range through unchanged; (iv) ide::highlight_related (real MIR, under-constrained database, a usage-search result with symbolic ranges for the queried file AND for another file) reports only ranges of the queried file; (iii)/(iv) findings are replayed through ide::Analysis on fixtures (non-ASCII end of file; two modules). Ranges produced by the other ide queries (navigation targets, references, rename edits, completion ranges, semantic highlights) are outside the claim.',
                 tech='symbolic execution of rustc MIR + z3 (bounded, exhaustive)'),
 }
 NA = {}
